@@ -102,6 +102,11 @@ def pDeco : P Deco.Op := do
   | some x => pure x
   | none => failure
 
+/-- a trailing list that may be absent altogether -/
+def optList : P (List String) := fun ts => match ts with
+  | [] => some ([], [])
+  | _ => listOf word ts
+
 def handler : Handler := fun op args =>
   match op with
   | "sched" => run (do
@@ -109,6 +114,10 @@ def handler : Handler := fun op args =>
       let steps ← listOf pStep
       let flav ← listOf word   -- how child i adopts the lock (run | fork | import): one model step
       if !(flav.all fun f => f == "run" || f == "fork" || f == "import") then failure
+      -- optionally: which synchronized function each thread calls at top level (p = probe,
+      -- i / w / f = UrwidImageScreen.get_available_raw_input / write / flush) — one model `call`
+      let fns ← optList
+      if !(fns.all fun f => f == "p" || f == "i" || f == "w" || f == "f") then failure
       let (e, evs) := runDescribe (init (procOf ps)) steps
       let en := (runSched (init (procOf ps)) steps).2
       -- `runSched` (the function the theorems talk about) and `runDescribe` must agree
